@@ -110,6 +110,36 @@ class SpecGen:
             return self.r.choice([a for a, _ in cur['attrs']]) if cur['attrs'] else None
         return None
 
+    def invoke_kw(self, t):
+        """Invoke with keyword parts: constants / specs / star in any order, keyword names repeated across parts (only the LAST
+        constants()/specs() call giving a name is evaluated, at its own position), star dicts overriding and being overridden"""
+        r = self.r
+        a, _ = self.access(t, allow_bad=False)
+
+        def sp():
+            return ['Tuple', [self.next_probe(), r.choice([a, ['T', 'T', []], ['Val', r.randint(1, 4)], ['Val', 2],
+                                                            ['Fn', ['raise', 'ValueError']] if r.random() < 0.3 else ['Val', 3]])]]
+        parts = []
+        for _ in range(r.randint(1, 4)):
+            tag = r.choice(['S', 'S', 'C', '*'])
+            names = r.sample(['a', 'b', 'c'], r.randint(0, 2))
+            if tag == 'S':
+                parts.append(['S', [sp() for _ in range(r.randint(0, 2))], [[n, sp()] for n in names]])
+            elif tag == 'C':
+                parts.append(['C', [['Lit', r.randint(10, 13)] for _ in range(r.randint(0, 2))], [[n, ['Lit', 'c' + n]] for n in names]])
+            else:
+                args = r.choice([[], [['Tuple', [self.next_probe(), ['Val', {'k': 'list', 'id': 0, 'items': [5, 6]}]]]],
+                                 [['Tuple', [self.next_probe(), ['Val', {'k': 'tuple', 'id': 0, 'items': []}]]]], [['Val', 3]]])
+                kwd = {'k': 'dict', 'od': False, 'id': 0, 'items': [[n, 's' + n] for n in names]}
+                kws = r.choice([[], [['', ['Tuple', [self.next_probe(), ['Val', kwd]]]]], [['', ['Tuple', [self.next_probe(), ['Val', kwd]]]]]])
+                if not args and not kws:
+                    kws = [['', ['Val', kwd]]]
+                parts.append(['*', args, kws])
+        fspec = ['Fn', ['rec']]
+        if r.random() < 0.25:
+            fspec = ['Spec', ['Tuple', [self.next_probe(), ['Val', {'fn': ['rec']}]]], []]
+        return ['Invoke', fspec, parts]
+
     def leaf(self, t):
         """a spec applicable to target t that does not descend"""
         r = self.r
@@ -223,6 +253,15 @@ class SpecGen:
             arg = r.choice([['T', 'T', []], a if a[0] == 'T' else ['Spec', a, []], ['Lit', 5], ['Str', 'lit'],
                             ['List', [['T', 'T', []], ['Lit', 1]]]])
             return ['Call', ['Fn', fn], [arg]]
+        if f == 'invoke' and r.random() < 0.45:
+            return self.invoke_kw(t)
+        if f == 'call' and r.random() < 0.2:
+            # keyword arguments: evaluated after the positional ones, in the order written
+            a, _ = self.access(t, allow_bad=False)
+            mk = lambda: ['Spec', ['Tuple', [self.next_probe(), r.choice([a, ['T', 'T', []], ['Val', 1], ['Fn', ['raise', 'ValueError']]])]], []]  # noqa: E731
+            args = [mk() for _ in range(r.randint(0, 2))]
+            kw = [[n, r.choice([mk(), ['Lit', 7], ['List', [['T', 'T', []], ['Lit', 1]]]])] for n in r.sample(['a', 'b', 'c'], r.randint(1, 2))]
+            return ['Call', ['Fn', ['rec']], args, kw]
         if f == 'invoke':
             fn = r.choice([['id'], ['len'], ['inc']])
             a, _ = self.access(t, allow_bad=False)
